@@ -8,7 +8,6 @@ import (
 	"bytes"
 	"fmt"
 	"math/big"
-	"strings"
 
 	"gitlab.com/yawning/secp256k1-voi/secec"
 
@@ -147,13 +146,7 @@ func main() {
 		}
 	}
 	// s/r on the GLV rounding / limb-carry boundaries of the variable-base multiply used by recovery
-	for gi, gv := range mc.GLVScalars(false) {
-		if !(strings.HasPrefix(gv.Label, "rounding") || strings.HasPrefix(gv.Label, "quotient")) {
-			continue
-		}
-		if !th && !(strings.Contains(gv.Label, "m=ffffffffffffffff,") || strings.Contains(gv.Label, "m=0,") || gi%7 == 0) {
-			continue
-		}
+	for gi, gv := range mc.GLVVerifierSubset(th) {
 		rp := ref.BaseMul(big.NewInt(int64(5 + gi%3)))
 		r := ref.ModN(rp.X)
 		cases = append(cases, tc{digests[0], r, ref.ZnMul(gv.V, r), "s/r on a GLV rounding boundary"})
